@@ -312,3 +312,36 @@ package desync
 //@ func (s *SwapWriteStore) StoreChunk
 //@   prop C11
 //@   nochecks panic
+
+// ---------------------------------------------------------------------------- C07: remaining feeders
+
+//@ func AssembleFile
+//@   prop C07
+//@   safety none
+//@   ghost@entry $eof = false
+//@   ghost@loop3.exit $eof = true
+//@   ensures r1 == nil ==> $eof
+
+//@ func (p Plan) Validate
+//@   prop C07
+//@   ghost@entry $eof = false
+//@   ghost@loop4.exit $eof = true
+//@   ensures !MockValidate && err == nil ==> $eof
+
+//@ func ChunkStream
+//@   prop C07
+//@   safety none
+//@   chan in: len(v.b) > 0
+//@   ghost@entry $eof = false
+//@   ghost@after:Next $eof = (len($r1) == 0 && $r2 == nil)
+//@   ensures r1 == nil ==> $eof
+
+//@ ghost var $sawDone bool
+
+//@ func UnTar
+//@   prop C07
+//@   safety none
+//@   ghost@entry $sawDone = false
+//@   ghost@recv:ctx.Done() $sawDone = true
+//@   loop 1: invariant !$sawDone
+//@   ensures $sawDone ==> is(r0, Interrupted)
